@@ -88,3 +88,25 @@ func Harness_C14_fire() {
 	}
 	verifReach("fired")
 }
+
+// C11: the expiry pass of one collection leaves every other collection alone,
+// even when the same key exists (and has expired) elsewhere.
+func Harness_C11_expireOneCollection() {
+	env := verifWorld(true, 2, 2)
+	db := env.db
+	var pre []verifDoc
+	for i := 0; i < verifDocSlots(db); i++ {
+		pre = append(pre, verifDocSlot(db, i))
+	}
+	verifTimerFiresAllowed = true
+	_, err := env.colls[1].expireDocuments()
+	verifAssert(err == nil, "expiry pass succeeds")
+	for _, p := range pre {
+		post := verifGetDoc(db, p.Coll, p.Key)
+		same := verifAnd(post.Present, verifBytesEq(post.Value, p.Value), post.Cas == p.Cas, post.Exp == p.Exp, post.Rev == p.Rev, post.Tombstone == p.Tombstone)
+		verifAssert(verifImplies(verifAnd(p.Present, p.Coll == 1), same), "expiring one collection's documents changes no document of another collection")
+		verifAssert(verifImplies(verifAnd(p.Present, p.Coll == 2, p.Exp == 0), same),
+			"a document without an expiry is not expired because the same key has expired in another collection")
+	}
+	verifReach("done")
+}
